@@ -192,4 +192,120 @@ theorem foldl_insertRight_sorted {α : Type} (lt : α → α → Bool)
   | nil => intro acc h; exact h
   | cons x r ih => intro acc h; exact ih _ (insertRight_sorted lt x acc hasym htrans h)
 
+/-! ### the four combining commands never panic (ZINTER / ZUNION / ZINTERSTORE / ZUNIONSTORE) -/
+
+/-- no `panic` leaf, and every primitive called is one that cannot fail -/
+def Prog.NoPanic {α : Type} : Prog α → Prop
+  | .ret _ => True
+  | .call p k => (∀ (c : Ctx) (s : State), (p.exec c s).isSome = true) ∧ ∀ r, (k r).NoPanic
+  | .panic _ => False
+  | .unmod _ => True
+
+theorem noPanic_run {α : Type} (c : Ctx) : ∀ (p : Prog α) (s : State), p.NoPanic → ∀ w, (p.run c s).2 ≠ .panic w := by
+  intro p
+  induction p with
+  | ret a => intro s _ w h; simp [Prog.run] at h
+  | call q k ih =>
+    intro s h w
+    simp only [Prog.run]
+    have hq := h.1 c s
+    cases he : q.exec c s with
+    | none => simp [he] at hq
+    | some sr => exact ih sr.2 sr.1 (h.2 sr.2) w
+  | panic w' => intro s h; exact absurd h id
+  | unmod w' => intro s _ w h; simp [Prog.run] at h
+
+theorem firstMod_zero (wi ai si : Option Nat)
+    (h : ([wi, ai, si].filterMap id).foldl (fun (acc : Option Nat) i => match acc with
+        | none => some i
+        | some j => some (min i j)) none = some 0) : wi = some 0 ∨ ai = some 0 ∨ si = some 0 := by
+  cases wi <;> cases ai <;> cases si <;> simp at h <;> simp <;> omega
+
+theorem findIdx_zero_head (p : Bytes → Bool) (cmd : List Bytes) (h : cmd.findIdx? p = some 0) : p (cmd.headD []) = true := by
+  cases cmd with
+  | nil => simp at h
+  | cons a r =>
+    simp only [List.findIdx?_cons] at h
+    split at h
+    · simpa
+    · simp at h
+
+theorem extractKWA_no_panic (cmd : List Bytes) (h : isModifierTok (cmd.headD []) = false) (w : String) :
+    extractKWA cmd ≠ .panic w := by
+  unfold extractKWA
+  split
+  · intro hh; cases hh
+  · dsimp only
+    repeat' split
+    all_goals first
+      | (intro hh; cases hh; done)
+      | skip
+    rename_i hz
+    exfalso
+    have hm : isModifierTok (cmd.headD []) = true := by
+      unfold isModifierTok
+      rcases firstMod_zero _ _ _ hz with h0 | h0 | h0
+      · have e : eqFold (cmd.headD []) (b "weights") = true := findIdx_zero_head (fun t => eqFold t (b "weights")) cmd h0
+        rw [e]; rfl
+      · have e : eqFold (cmd.headD []) (b "aggregate") = true := findIdx_zero_head (fun t => eqFold t (b "aggregate")) cmd h0
+        rw [e]; simp
+      · have e : eqFold (cmd.headD []) (b "withscores") = true := findIdx_zero_head (fun t => eqFold t (b "withscores")) cmd h0
+        rw [e]; simp
+    rw [h] at hm
+    cases hm
+
+
+theorem head_filter_ne (cmd : List Bytes) (dest : Bytes) (h : cmd.headD [] ≠ dest) (hne : cmd ≠ []) :
+    (cmd.filter fun t => t != dest).headD [] = cmd.headD [] := by
+  cases cmd with
+  | nil => exact absurd rfl hne
+  | cons a r =>
+    simp only [List.headD_cons] at h ⊢
+    simp [h]
+
+/-- `setOrErr` around a program without panic -/
+theorem setOrErr_noPanic (es : List (Bytes × Val)) (k : Prog Res) (h : k.NoPanic) : (setOrErr es k).NoPanic := by
+  unfold setOrErr
+  refine ⟨fun c s => rfl, fun r => ?_⟩
+  dsimp only
+  split
+  · exact h
+  · trivial
+
+theorem zCombineTail_noPanic (inter store ws : Bool) (dest agg : Bytes) (rows : List (Bytes × Bool × Val × Int)) :
+    (zCombineTail inter store ws dest agg rows).NoPanic := by
+  unfold zCombineTail
+  repeat' split
+  all_goals first
+    | trivial
+    | (apply setOrErr_noPanic; trivial)
+
+theorem handleZCombine_noPanic (inter store : Bool) (c : Ctx) (cmd : List Bytes)
+    (hh : isModifierTok (cmd.headD []) = false) (hd : store = true → cmd.headD [] ≠ cmd.getD 1 []) :
+    (handleZCombine inter store c cmd).NoPanic := by
+  have hx2 : ∀ w, extractKWA cmd ≠ .panic w := extractKWA_no_panic cmd hh
+  have hx1 : store = true → ∀ w, extractKWA (cmd.filter (fun t => t != cmd.getD 1 [])) ≠ .panic w := by
+    intro hs w
+    apply extractKWA_no_panic
+    cases cmd with
+    | nil => exact hh
+    | cons a r =>
+      rw [head_filter_ne (a :: r) _ (hd hs) (by simp)]
+      exact hh
+  have hx3 : ∀ w, extractKWA (if store = true then cmd.filter (fun t => t != cmd.getD 1 []) else cmd) ≠ .panic w := by
+    intro w
+    split
+    · rename_i hs; exact hx1 hs w
+    · exact hx2 w
+  unfold handleZCombine
+  repeat' (first
+    | trivial
+    | exact zCombineTail_noPanic _ _ _ _ _ _
+    | exact absurd ‹extractKWA cmd = XRes.panic _› (hx2 _)
+    | exact absurd ‹extractKWA _ = XRes.panic _› (hx1 ‹store = true› _)
+    | exact absurd ‹extractKWA _ = XRes.panic _› (hx3 _)
+    | (refine ⟨fun c s => rfl, fun r => ?_⟩)
+    | split
+    | (dsimp only))
+
 end Sugar
